@@ -24,7 +24,7 @@ RULE = ("kind in {none, constant, two constants, all points, only-some points, c
         "(quick) / 8 (thorough). distinct_nontrivial = distinct (kind, channel, model) cells whose overridden trajectory differs from the "
         "model's own trajectory (so that an ignored override is visible).")
 ASSUMPTIONS = ["runspec overrides are generated for SD-DSL models only (as the property states)", "values compared at 1e-9 relative on the scenario's own decimal grid"]
-REQUIRED = {"file_rereads": 40, "re_registrations": 20, "cells_compared": 3000, "scenarios_run": 150}
+REQUIRED = {"joint_calls": 100, "file_rereads": 40, "re_registrations": 20, "cells_compared": 3000, "scenarios_run": 150}
 BUDGET_S = {"quick": 110, "thorough": 1500}
 
 P1 = [[0.0, 1.0], [3.0, 4.0], [8.0, 0.5]]
@@ -365,6 +365,16 @@ def run_case(case):
                 except Exception as e:
                     res = {}
                 results.setdefault(sname + ("+batch" if sname in results else ""), res)
+            if len(todo) >= 2:
+                # all of them in ONE call (dict format): every scenario still comes back on its own grid with its own values
+                try:
+                    dfj = b.run_scenarios(scenarios=list(todo), scenario_managers=["sm"], equations=list(names), return_format="dict")
+                    for sname in todo:
+                        eqs = dfj["sm"][sname]["equations"]
+                        results[sname + "+joint-call"] = {nme: {float(t): float(v) for t, v in eqs[nme].items()} for nme in names if nme in eqs}
+                    counters["joint_calls"] = counters.get("joint_calls", 0) + 1
+                except Exception as e:
+                    w = dict(kind="exception:" + type(e).__name__, error=repr(e)[:300], where="joint call")
         if w is None and ch in ("file1", "file2") and ("constants" in o or "points" in o):
             # a session delivers OTHER settings to the file-defined scenario; the scenario is then read from its file again (reset_scenario), and a
             # second engine in the same process reads the same files: both must run with the file's values
